@@ -116,8 +116,9 @@ class MAUPITIConv2d(nn.Conv2d, MAUPITIModule):
         # self._zero_point = self.add_bias
         if not self.skip_requant:
             with torch.no_grad():
+                # the offset of the (signed) input depends on the INPUT precision
                 self._zero_point = (self.add_bias + (self.clip_inf * 2**self.shift) -
-                                    self.clip_inf * self.scale *
+                                    self.clip_inf_in * self.scale *
                                     torch.sum(self.weight, dim=(1, 2, 3)
                                               ).view(1, self.out_channels, 1, 1))
         else:
@@ -133,7 +134,7 @@ class MAUPITIConv2d(nn.Conv2d, MAUPITIModule):
         if self.padding == 'valid':
             self.pad = nn.ConstantPad2d(0, 0)
         else:
-            self.pad = nn.ConstantPad2d(self.padding[0], self.clip_inf)
+            self.pad = nn.ConstantPad2d(self.padding[0], self.clip_inf_in)
 
     def forward(self, input: torch.Tensor) -> torch.Tensor:
         """The forward function of integer conv2d layer.
@@ -191,6 +192,12 @@ class MAUPITIConv2d(nn.Conv2d, MAUPITIModule):
     def clip_inf(self):
         # Define ReLU inferior extreme
         return torch.tensor(-2 ** (self.out_quantizer.precision - 1),
+                            device=self.device)
+
+    @property
+    def clip_inf_in(self):
+        # Value representing zero in the (signed) input activations
+        return torch.tensor(-2 ** (self.in_quantizer.precision - 1),
                             device=self.device)
 
     @property
